@@ -1,5 +1,8 @@
 /-! # Result type of the model: value, library error, or Rust panic -/
 
+/-- `u32::MAX` (a notation, so that the arithmetic tactics see the literal) -/
+notation "u32Max" => (4294967295 : Nat)
+
 namespace Adsb
 
 /-- The classes of `DekuError` the decoder can return. -/
